@@ -25,3 +25,18 @@ package mem
 //@   loop 1 invariant rangeindex < len(alerts) && count("store.Alerts).Get") == rangeindex + 1
 //@   noeffect store.Alerts).Get store.Alerts).Set Alert).Merge PreStore PostStore RecordEvent Inject EnableAlertNamesInMetrics
 //@   nosafe
+
+// ---- C02 / C13: alert garbage collection tells the callback (the silencer's cache eviction, the marker) about
+// exactly the collected alerts: PostDelete once per collected alert, then PostGC with their fingerprints, in order.
+//@ func (*Alerts).gc
+//@   props C02 C13
+//@   nosafe
+//@   opaque Alerts).gcListeners Alerts).gcAlerts
+//@   noeffect AlertStoreCallback).PostDelete AlertStoreCallback).PostGC Alerts).gcListeners Alerts).gcAlerts
+//@   after call Alerts).gcAlerts assume forall i int :: 0 <= i && i < len(res0) ==> res0[i] != nil
+//@   at call AlertStoreCallback).PostDelete assert [each-collected-alert] arg1 == deleted[rangeindex1 + 1] && count("AlertStoreCallback).PostDelete") == rangeindex1 + 1
+//@   at call AlertStoreCallback).PostGC assert [all-collected-fingerprints] len(arg1) == len(deleted) && count("AlertStoreCallback).PostDelete") == len(deleted)
+//@             && (forall i int :: 0 <= i && i < len(deleted) ==> arg1[i] == fpL(deleted[i].Labels))
+//@   ensures [callback-told-iff-something-collected] called("AlertStoreCallback).PostGC") == (len(ret("Alerts).gcAlerts")) > 0)
+//@   loop 1 invariant rangeindex < len(deleted) && fresh(ff) && len(ff) == len(deleted) && count("AlertStoreCallback).PostDelete") == rangeindex + 1 && !called("AlertStoreCallback).PostGC")
+//@   loop 1 invariant forall i int :: 0 <= i && i <= rangeindex ==> ff[i] == fpL(deleted[i].Labels)
